@@ -283,6 +283,22 @@ example : ((View.mk 0 (48 * 7 + 40) 10 8 4 48).croppedP 2 1 6 5).bind (fun c => 
     (View.mk 0 (48 * 7 + 40) 10 8 4 48).croppedP 3 2 2 2 = some ⟨2 * 48 + 12, 48 + 8, 2, 2, 4, 48⟩ := by
   decide
 
+/-- **The full crop is the identity**: cropping a non-empty view at offset (0,0) with its own size returns
+exactly that view (same base, length, pitch). -/
+theorem crop_full_id (v : View) (hv : Inv v) (hne : ¬ (v.w = 0 ∨ v.h = 0)) :
+    v.croppedP 0 0 v.w v.h = some v := by
+  have hin : v.containsRect 0 0 v.w v.h = true := by unfold View.containsRect; simp
+  obtain ⟨c, e, i, cw, ch, cp, cb, cbase⟩ := crop_spec v hv 0 0 v.w v.h hin hne
+  rw [e]
+  have l1 := i.len_eq (by rw [cw, ch]; exact hne)
+  have l2 := hv.len_eq hne
+  have hlen : c.len = v.len := by rw [l1, l2, cw, ch, cp, cb]
+  have hbase : c.base = v.base := by rw [cbase]; omega
+  cases c; cases v
+  simp only at hbase hlen cw ch cp cb
+  subst hbase hlen cw ch cp cb
+  rfl
+
 /-- Empty crops inside the parent give the empty view. -/
 theorem crop_empty (v : View) (ox oy w h : Nat) (hin : v.containsRect ox oy w h = true)
     (he : w = 0 ∨ h = 0) : v.croppedP ox oy w h = some ⟨v.base, 0, 0, 0, v.bpp, 0⟩ := by
